@@ -51,7 +51,18 @@ def fieldlimbs_post(ctx, cases, outs, sj, state):
                      "-%s%d" % (g, i))
         state["found"] = True
 
+def judge(c, m, byid, outs):
+    flat = c["flat"]
+    if flat.get("concurrent_equal") == "no":
+        return ("property", "a call gives a different answer when other goroutines are inside the library: %s: sequential %s, concurrent %s"
+                % (str(flat.get("call"))[:200], flat.get("sequential"), flat.get("concurrent")))
+    if m != c["observed"]:
+        return ("property", "model %r, implementation %r" % (m, c["observed"]))
+    return None
+
+
 SPEC = {
+    "judge": judge,
     "uses_gen": ["Crypto", "FieldLimbs"],
     "post": fieldlimbs_post,
     "cmd": "c14",
